@@ -69,6 +69,11 @@ FIXED_PROGRAMS = [
     # matches whose length changes cancel within one step (a run grows, another shrinks)
     [{"t": "rule", "pat": "a+", "ng": 0, "tmpl": "ab"}],
     [{"t": "rule", "pat": " +", "ng": 0, "tmpl": "  "}, {"t": "rule", "pat": "b*", "ng": 0, "tmpl": "x"}],
+    # literals between in-order group references where the following group is optional/absent or empty
+    [{"t": "rule", "pat": "(a)(b)?", "ng": 2, "tmpl": "\\1 - \\2"}],
+    [{"t": "rule", "pat": "(a)(b)?(c)", "ng": 3, "tmpl": "\\1 + \\2\\3"}],
+    [{"t": "rule", "pat": "(a)(b)*", "ng": 2, "tmpl": "x\\1y\\2z"}, {"t": "rule", "pat": "y", "ng": 0, "tmpl": ""}],
+    [{"t": "rule", "pat": "(a)|(b)", "ng": 2, "tmpl": "\\1.\\2"}],
 ]
 
 
@@ -119,9 +124,14 @@ def gen_cases(rng, tier):
         p = normalise(p)
         active = rng.choice([[], ["m1"], ["m1", "m2"]])
         tokpat = rng.choice(TOKPATS)
+        # a fifth of the programs are loaded from files with `<` includes instead of from a string
+        files = rng.randrange(1, 10 ** 6) if rng.random() < 0.2 else None
         for s in strings + extra:
             if terminates(p, s, active):
                 cases.append({"k": "repp", "prog": p, "active": active, "s": s, "tokpat": tokpat})
+                if files is not None and len(s) >= 2 and rng.random() < 0.3:
+                    cases.append({"k": "repp", "prog": p, "active": active, "s": s, "tokpat": tokpat,
+                                  "files": files})
         for _ in range(6):
             s = "".join(rng.choice(ALPHA + "ab ") for _ in range(rng.randrange(5, 14)))
             if terminates(p, s, active):
@@ -214,7 +224,40 @@ def build(case):
     prog = normalise(case["prog"])
     main, modules = render(prog)
     mods = {name: repp.REPP.from_string(text, name=name) for name, text in modules.items()}
-    r = repp.REPP.from_string(main, modules=mods, active=case["active"])
+    if case.get("files") is None:
+        r = repp.REPP.from_string(main, modules=mods, active=case["active"])
+        return r, prog
+    # the same program loaded from files: contiguous runs of lines moved to included files
+    # (`<file`, also nested), external modules found as <name>.rpp next to the main file
+    import os
+    import random
+    import shutil
+    import tempfile
+    frng = random.Random(case["files"])
+    d = tempfile.mkdtemp(prefix="verif_repp_")
+    try:
+        for name, text in modules.items():
+            with open(os.path.join(d, name + ".rpp"), "w") as f:
+                f.write(text + "\n")
+        lines = main.split("\n") if main else []
+        if lines:
+            i = frng.randrange(0, len(lines))
+            j = frng.randrange(i + 1, len(lines) + 1)
+            inc = lines[i:j]
+            lines = lines[:i] + ["<inc1.rpp"] + lines[j:]
+            if len(inc) >= 2 and frng.random() < 0.4:
+                a = frng.randrange(0, len(inc))
+                b = frng.randrange(a + 1, len(inc) + 1)
+                with open(os.path.join(d, "inc2.rpp"), "w") as f:
+                    f.write("\n".join(inc[a:b]) + "\n")
+                inc = inc[:a] + ["<inc2.rpp"] + inc[b:]
+            with open(os.path.join(d, "inc1.rpp"), "w") as f:
+                f.write("\n".join(inc) + "\n")
+        with open(os.path.join(d, "main.rpp"), "w") as f:
+            f.write("\n".join(lines) + "\n")
+        r = repp.REPP.from_file(os.path.join(d, "main.rpp"), active=case["active"])
+    finally:
+        shutil.rmtree(d, ignore_errors=True)
     return r, prog
 
 
